@@ -2,7 +2,8 @@
 
 Systematic enumeration of the grid
     format   in {action, (action,prob), PMF, {'action'}, {'action_prob'}, {'pmf'}}
-  x kwargs   in {none, {}, payload}
+  x kwargs   in {none, {}, payload}  x  the kind of Mapping the kwargs are handed over as
+               in {dict, OrderedDict (a dict subclass), types.MappingProxyType, collections.UserDict}
   x batching in {not, row-major, column-major, fallback-per-row}
   x action-set kind (12) x #actions in {1,2,3,4} x batch size in {1,2,3,4}   (incl. the square cases)
 Every grid cell is filled several times (seeded): context kind, PMF style, containers, kwargs payload kind,
@@ -26,16 +27,17 @@ from collections import Counter
 
 ID    = "C15"
 LEVEL = "exploration"
-RULE  = ("full enumeration of format(6) x kwargs(3) x batching(not,row,col,fallback) x action kind(12) x #actions(1-4) "
+RULE  = ("full enumeration of format(6) x kwargs(none | {empty,payload} x Mapping kind(dict,OrderedDict,MappingProxyType,UserDict)) x batching(not,row,col,fallback) x action kind(12) x #actions(1-4) "
          "x batch size(1-4); every cell is filled with seeded context kinds, PMF styles, containers, payload kinds and "
-         "follow-up calls; a case is distinct when (format, kwargs, batching, kind, #actions, batch size, context kind, "
+         "follow-up calls; a case is distinct when (format, kwargs, kwargs Mapping kind, batching, kind, #actions, batch size, context kind, "
          "pmf style, payload kind, container, fallback style, key length) differ; trivial = unbatched with 1 action or "
          "a cell outside the quantifier (bare dict action, value readable two ways)")
-PLAN  = {"quick":    {"shards": 16, "cases": 36000,  "timeout": 900,  "budget_s": 240},
+PLAN  = {"quick":    {"shards": 16, "cases": 68000,  "timeout": 900,  "budget_s": 240},
          "thorough": {"shards": 16, "cases": 400000, "timeout": 3000, "budget_s": 1500}}
-REQUIRED = ["oracle.action", "oracle.prob.stated", "oracle.prob.pmf", "oracle.kwargs.out", "oracle.kwargs.learn",
+REQUIRED = ["oracle.action", "oracle.prob.stated", "oracle.prob.none-stated", "oracle.prob.pmf", "oracle.kwargs.out", "oracle.kwargs.learn",
             "oracle.pmf.same-seed", "oracle.pmf.zero-never", "oracle.fallback.once-per-row", "oracle.fallback.same-effect",
-            "grid.cells", "grid.square", "batching.not", "batching.row", "batching.col", "batching.fallback",
+            "grid.cells", "grid.square", "kwargs.as.dict", "kwargs.as.odict", "kwargs.as.proxy", "kwargs.as.userdict",
+            "learner.batch-only", "oracle.kwargs.out.non-dict-mapping", "oracle.kwargs.learn.non-dict-mapping", "batching.not", "batching.row", "batching.col", "batching.fallback",
             "oracle.pmf.frequency", "e2e.rows", "contract.predict.action_offered"]
 ASSUMPTIONS = [
     "learners answer consistently in one documented layout and return the offered objects themselves",
@@ -49,11 +51,16 @@ ASSUMPTIONS = [
     "returned actions are compared by equality (0.0 == 0), the probability of the bare/hinted action formats is not asserted",
     "a bare PMF sums to 1 within 2e-4 (learners that round to 4 decimals; coba's documented tolerance is 1e-3)",
     "a learner that cannot take batches raises (or returns None) from predict and raises from learn when handed a batch",
+    "a learner written for batches only (it raises when called with a single row) answers every batch in its one layout",
     "kwargs keys do not collide with learn's parameter names or with the hint names",
+    "the kwargs part is a collections.abc.Mapping with str keys (coba.primitives.Kwargs = Mapping[str,Any]): a dict, a dict subclass "
+    "(OrderedDict), a read-only types.MappingProxyType or a collections.UserDict; what the evaluator and learn receive is compared "
+    "by content (keys and values), not by container type",
 ]
 
 FORMATS  = ["action", "action_prob", "pmf", "h_action", "h_action_prob", "h_pmf"]
 KWMODES  = ["none", "empty", "payload"]
+KWCONTS  = ["dict", "odict", "proxy", "userdict"]     # how the learner hands its kwargs over: any Mapping is a kwargs mapping
 BATCHING = ["not", "row", "col", "fallback"]
 KINDS    = ["int01", "int", "floatp", "float01", "str1", "strn", "categorical", "onehot", "tuple2", "list", "dict", "mixed"]
 SIZES    = [1, 2, 3, 4]
@@ -69,6 +76,7 @@ class ContractBroken(AssertionError): pass
 class CannotBatch(Exception): pass
 class HarnessError(Exception): pass
 class Unscripted(Exception): pass
+class BatchOnly(Exception): pass
 
 _CNT = Counter()
 _QUIET = []
@@ -84,12 +92,13 @@ def grid():
     cells = []
     for fmt in FORMATS:
         for kw in KWMODES:
+          for kwc in (KWCONTS if kw != "none" else ["dict"]):
             for kind in KINDS:
                 for n in SIZES:
-                    cells.append((fmt, kw, "not", kind, n, 0))
+                    cells.append((fmt, kw, "not", kind, n, 0, kwc))
                     for bat in ("row", "col", "fallback"):
                         for b in SIZES:
-                            cells.append((fmt, kw, bat, kind, n, b))
+                            cells.append((fmt, kw, bat, kind, n, b, kwc))
     return cells
 
 # ------------------------------------------------------------------------------------------ values
@@ -147,6 +156,21 @@ def _eq(a, b):
         return bool(a == b)
     except Exception:
         return False
+
+def make_kwargs(kwc, d):
+    """the kwargs mapping the way the learner hands it over (a fresh object every time)"""
+    d = dict(d)
+    if kwc == "dict":     return d
+    if kwc == "odict":
+        from collections import OrderedDict
+        return OrderedDict(d)
+    if kwc == "proxy":
+        from types import MappingProxyType
+        return MappingProxyType(d)
+    if kwc == "userdict":
+        from collections import UserDict
+        return UserDict(d)
+    raise HarnessError(kwc)
 
 def make_pmf(style, ws):
     tot = sum(ws)
@@ -207,10 +231,10 @@ def gen_case(params):
     return p
 
 def fill_params(cell, rng):
-    fmt, kw, bat, kind, n, b = cell
-    return {"fmt": fmt, "kw": kw, "batching": bat, "kind": kind, "n": n, "b": b,
+    fmt, kw, bat, kind, n, b, kwc = cell
+    return {"fmt": fmt, "kw": kw, "kwc": kwc, "batching": bat, "kind": kind, "n": n, "b": b,
             "ctx": rng.choice(CTXKINDS), "pmf": rng.choice(PMFSTYLE), "cont": rng.choice(CONTS), "klen": rng.choice(SIZES),
-            "pay": rng.choice(PAYKINDS), "fb": rng.choice(FBSTYLES), "more": rng.random() < .7, "ragged": rng.random() < .2, "same": rng.random() < .3,
+            "pay": rng.choice(PAYKINDS), "fb": rng.choice(FBSTYLES), "more": rng.random() < .7, "bonly": bat in ("row", "col") and rng.random() < .3, "ragged": rng.random() < .2, "same": rng.random() < .3,
             "fill": rng.randint(0, 10**9)}
 
 # ------------------------------------------------------------------------------------------ domain of the statement
@@ -251,6 +275,7 @@ class Scripted:
         self.spec = spec
         self.layout = "not" if rowwise else spec["batching"]
         self.cont = tuple if spec["cont"] == "tuple" else list
+        self.kwc  = spec.get("kwc", "dict")
         self.table = {}
         for rows in spec["calls"]:
             for row in rows:
@@ -283,12 +308,15 @@ class Scripted:
         elif fmt == "h_action_prob": core = {"action_prob": C([a, p])}
         else:                      core = {"pmf": pmf}
         if kw is None: return core
-        if fmt == "action_prob": return C([a, p, dict(kw)])
-        return C([core, dict(kw)])
+        if fmt == "action_prob": return C([a, p, make_kwargs(self.kwc, kw)])
+        return C([core, make_kwargs(self.kwc, kw)])
 
     def predict(self, context, actions):
         from coba.primitives import is_batch
         batched = is_batch(context) or is_batch(actions)
+        if not batched and self.spec.get("bonly") and self.layout in ("row", "col"):
+            # a learner written for batches only: it answers every batch in its one layout and nothing else
+            raise BatchOnly("this learner only understands batches")
         if not batched:
             out = self._one(context, actions)
             self.row_calls.append(self.table[repr(canon((context, list(actions))))]["rep"])
@@ -306,7 +334,7 @@ class Scripted:
             rows = [self._row(c, A) for c, A in zip(context, actions)]
             kws  = [r[0]["kw"] for r in rows]
             has_kw = kws[0] is not None
-            KW = {k: [kw[k] for kw in kws] for k in kws[0]} if has_kw else None
+            KW = make_kwargs(self.kwc, {k: [kw[k] for kw in kws] for k in kws[0]}) if has_kw else None
             A_col = [r[1] for r in rows]; P_col = [r[2] for r in rows]; M = [r[3] for r in rows]
             if   fmt == "action":        parts = [A_col]
             elif fmt == "action_prob":   parts = [C(A_col), C(P_col)]
@@ -389,6 +417,7 @@ def _evaluate(spec, note, freq=None):
     fmt, bat, kwm = spec["fmt"], spec["batching"], spec["kw"]
     batched = bat != "not"
     is_pmf, is_ap = fmt in ("pmf", "h_pmf"), fmt in ("action_prob", "h_action_prob")
+    nondict_kw = kwm != "none" and spec.get("kwc", "dict") in ("proxy", "userdict")
     # ---- domain
     for rows in spec["calls"]:
         for r in rows:
@@ -406,6 +435,12 @@ def _evaluate(spec, note, freq=None):
             while root is not None and not isinstance(root, Unscripted): root = root.__cause__ or root.__context__
             if root is not None:
                 return [("learner-asked-unoffered", f"{where}: {root}")]
+            root = e
+            while root is not None and not isinstance(root, BatchOnly): root = root.__cause__ or root.__context__
+            if root is not None:
+                first = e.__cause__ or e.__context__ or e
+                return [("batch-answer-refused", f"{where}: the learner's batched answer {lrn.first_pred!r} was not accepted ({type(first).__name__}: {first}) "
+                                                 f"and the batch-only learner was then called row by row")]
             return [(f"raise:{type(e).__name__}", f"{where}: predict raised {type(e).__name__}: {e}; learner answered {lrn.first_pred!r}")]
         out = rec["out"]
         if not (_seq(out) and len(out) == 3):
@@ -449,8 +484,15 @@ def _evaluate(spec, note, freq=None):
                     note("oracle.prob.stated")
                     if not (isinstance(p, (int, float)) and not isinstance(p, bool) and p == r["p"]):
                         return [("wrong-prob", f"{where} row {i}: learner stated {r['p']!r}, evaluator received {p!r}")]
+                else:
+                    # the learner stated no probability: what value stands for "none stated" is not asserted, but it is
+                    # not some other part of the answer (the kwargs mapping, a container)
+                    note("oracle.prob.none-stated")
+                    if not (p is None or (isinstance(p, (int, float)) and not isinstance(p, bool))):
+                        return [("prob-is-not-a-probability", f"{where} row {i}: learner named {acts[r['idx']]!r} and stated no probability, evaluator received the probability {p!r}; learner answered {lrn.first_pred!r}")]
         # ---- kwargs as the evaluator receives them
         note("oracle.kwargs.out")
+        if nondict_kw: note("oracle.kwargs.out.non-dict-mapping")
         want_keys = sorted(rows[0]["kw"] or {})
         if sorted(K.keys()) != want_keys:
             return [("wrong-kwargs", f"{where}: learner returned kwargs {rows[0]['kw']!r}, evaluator received {dict(K)!r}")]
@@ -470,6 +512,7 @@ def _evaluate(spec, note, freq=None):
             return [(f"learn-raise:{type(e).__name__}", f"{where}: learn(context, action, reward, prob, **kwargs) raised {type(e).__name__}: {e}")]
         new = rec["learned"]
         note("oracle.kwargs.learn")
+        if nondict_kw: note("oracle.kwargs.learn.non-dict-mapping")
         if bat == "fallback":
             note("oracle.fallback.once-per-row")
             got_rids = rec["rowcalls"]
@@ -625,8 +668,8 @@ def _evaluate_e2e(spec, note):
     return []
 
 # ------------------------------------------------------------------------------------------ signatures
-NEUTRAL = [("ragged", False), ("same", False), ("kind", "str1"), ("klen", 2), ("ctx", "int"), ("pmf", "float"), ("cont", "list"), ("more", False), ("fb", "raise"),
-           ("kw", "none"), ("pay", "scalar"), ("n", 3), ("b", 2)]
+NEUTRAL = [("ragged", False), ("same", False), ("kind", "str1"), ("klen", 2), ("ctx", "int"), ("pmf", "float"), ("cont", "list"), ("more", False), ("bonly", False), ("fb", "raise"),
+           ("kw", "none"), ("kwc", "dict"), ("pay", "scalar"), ("n", 3), ("b", 2)]
 
 def _first(spec, e2e):
     try:
@@ -645,11 +688,42 @@ def signature(spec, mode, e2e=False):
         return bool(r) and r[0][0] == mode
     for key, neutral in NEUTRAL:
         if cur.get(key, neutral) == neutral or (key == "b" and cur["batching"] == "not"): continue
+        if key == "kwc" and cur["kw"] == "none": cur["kwc"] = "dict"; continue
         trial = dict(cur); trial[key] = neutral
         if still(trial): cur = trial
         elif key == "kw" and cur["kw"] == "empty":          # kwargs matter: is it their emptiness or their presence?
             trial = dict(cur); trial["kw"] = "payload"; trial["pay"] = "scalar"
             if still(trial): cur = trial
+    if cur["kw"] != "none" and cur.get("kwc", "dict") != "dict":
+        # the kind of Mapping the kwargs come in is what matters: one mechanism, whose failure mode varies with the other
+        # features.  Those are neutralised as long as the case keeps failing *because of* the Mapping kind (it does not fail
+        # with a plain dict) and the failure mode named is that of the neutralised case
+        def first_mode(trial):
+            try: r = _first(gen_case(trial), e2e)
+            except Exception: r = []
+            return r[0][0] if r else None
+        def by_mapping_kind(trial):
+            plain = dict(trial); plain["kwc"] = "dict"
+            return first_mode(trial) is not None and first_mode(plain) is None
+        if by_mapping_kind(cur):
+            for _ in range(3):
+                before = dict(cur)
+                for key, neutral in NEUTRAL:
+                    if key in ("kw", "kwc") or cur.get(key, neutral) == neutral or (key == "b" and cur["batching"] == "not"): continue
+                    trial = dict(cur); trial[key] = neutral
+                    if by_mapping_kind(trial): cur = trial
+                if cur["kw"] == "empty":
+                    trial = dict(cur); trial["kw"] = "payload"; trial["pay"] = "scalar"
+                    if by_mapping_kind(trial): cur = trial
+                if cur == before: break
+            mode = first_mode(cur) or mode
+    kwas = None
+    if cur["kw"] != "none" and cur.get("kwc", "dict") != "dict":
+        # is it this very Mapping type, or any Mapping that is not a dict (subclass)?
+        kwas = {"odict": "dict-subclass", "proxy": "MappingProxyType", "userdict": "UserDict"}[cur["kwc"]]
+        if cur["kwc"] in ("proxy", "userdict"):
+            trial = dict(cur); trial["kwc"] = "userdict" if cur["kwc"] == "proxy" else "proxy"
+            if still(trial): kwas = "non-dict-mapping"
     feats = []
     if cur["kind"] != "str1":   feats.append(f"actions={cur['kind']}")
     if cur["kind"] in ("list", "strn") and cur["klen"] != 2: feats.append(f"seq-len={cur['klen']}")
@@ -657,19 +731,21 @@ def signature(spec, mode, e2e=False):
     if cur["fmt"] in ("pmf", "h_pmf") and cur["pmf"] != "float": feats.append(f"pmf={cur['pmf']}")
     if cur["cont"] != "list":   feats.append("tuple-containers")
     if cur["more"]:             feats.append("later-call")
+    if cur.get("bonly"):        feats.append("batch-only-learner")
     if cur.get("ragged"):       feats.append("ragged-rows")
     if cur.get("same"):         feats.append("same-actions-every-row")
     if cur["batching"] == "fallback" and cur["fb"] != "raise": feats.append(f"on-batch={cur['fb']}")
     if cur["kw"] == "empty":    feats.append("kwargs=empty")
     elif cur["kw"] == "payload": feats.append("kwargs" + ("" if cur["pay"] == "scalar" else f"={cur['pay']}"))
+    if kwas:                    feats.append(f"kwargs-as={kwas}")
     if cur["n"] != 3:           feats.append("one-action" if cur["n"] == 1 else f"n-actions={cur['n']}")
     if cur["batching"] != "not" and cur["b"] != 2: feats.append(f"batch-size={cur['b']}")
     return f"{cur['batching']}/{cur['fmt']}" + "".join("/" + f for f in feats) + f"/mode={mode}"
 
 def case_key(spec):
-    return (spec["fmt"], spec["kw"], spec["batching"], spec["kind"], spec["n"], spec["b"], spec["ctx"],
+    return (spec["fmt"], spec["kw"], spec.get("kwc", "dict") if spec["kw"] != "none" else "-", spec["batching"], spec["kind"], spec["n"], spec["b"], spec["ctx"],
             spec["pmf"] if "pmf" in spec["fmt"] else "-", spec["pay"] if spec["kw"] == "payload" else "-", spec["cont"],
-            spec["fb"] if spec["batching"] == "fallback" else "-", spec["klen"] if spec["kind"] in ("list", "strn") else "-", spec["more"], spec.get("ragged", False), spec.get("same", False))
+            spec["fb"] if spec["batching"] == "fallback" else "-", spec["klen"] if spec["kind"] in ("list", "strn") else "-", spec["more"], spec.get("bonly", False), spec.get("ragged", False), spec.get("same", False))
 
 def check_case(spec, ctx=None, freq=None, e2e=None):
     """returns [(sig, what)]"""
@@ -713,8 +789,10 @@ def run_shard(ctx):
             ctx.count("grid.cells" if rep == 0 else "grid.refills")
             ctx.count("batching." + cell[2])
             if cell[2] != "not" and cell[4] == cell[5]: ctx.count("grid.square")
+            if cell[1] != "none": ctx.count("kwargs.as." + cell[6])
+            if spec.get("bonly"): ctx.count("learner.batch-only")
             v = check_case(spec, ctx, freq, e2e=(rep % 2 == 0))
-            if done < 2: ctx.sample({k: spec[k] for k in ("fmt", "kw", "batching", "kind", "n", "b", "ctx", "pmf", "cont", "pay")} | {"first_call": spec["calls"][0]})
+            if done < 2: ctx.sample({k: spec[k] for k in ("fmt", "kw", "kwc", "batching", "kind", "n", "b", "ctx", "pmf", "cont", "pay")} | {"first_call": spec["calls"][0]})
             for sig, what in v:
                 ctx.violation(sig, what, spec)
             done += 1
